@@ -12,8 +12,8 @@ SPEC = vlib.os.path.join(vlib.VERIF, "specs", "Relay")
 SERVERS = {True: ["ss2022"], False: ["socks5", "http", "none", "direct"]}
 CLIENTS = {True: ["directtfo", "ss2022", "none"], False: ["direct", "socks5", "http"]}
 UNITS = [1, 700, 1440, 1441, 70000]
-IDX = dict(phase=0, rejected=1, reqp=2, cs=3, cclosed=4, ts=5, tclosed=6, buf=7, waited=8, dialp=9, tg=10, cg=11, l2r=12, r2l=13,
-           l2rdone=14, r2ldone=15, tshut=16, cshut=17, reply=18, stats=19)
+_SV = "phase rejected reqp cs cclosed ts tclosed tabort buf waited dialp tg cg l2r r2l l2rdone r2ldone tshut cshut reply stats".split()
+IDX = {name: i for i, name in enumerate(_SV)}   # positions in TcpRelay.tla's sv tuple
 
 
 def cases_for(graph, paths, sn, cn, lw, rnd, all_combos):
